@@ -135,6 +135,9 @@ def run_sequence_check(chk, prefix, what):
             c["dir"] = d
             c["block"] = 2
             c["announced"] = [16, 34]
+    # the connection takes a write whole, or one / two bytes of it at a time (rotating over the cases)
+    for k, c in enumerate(cases):
+        c["wchunk"] = [0, 0, 0, 1, 2][k % 5]
     out = replay(binary, cases, wd, "replay")
     mism = []
     n = 0
